@@ -59,3 +59,114 @@ def componentCount (segs : List ((Nat × Nat) × (Nat × Nat))) : Nat :=
 def areaVec2 (a b c : V3 α) : V3 α := V3.cross (V3.sub b a) (V3.sub c a)
 
 end
+
+/-! ### `Mesh::plane_crossing_segments` / `Mesh::section` (engeom's own code since the repair of the
+    section hang): every statement of the Rust function, HashMap lookups as association lists -/
+
+inductive SecKey where
+  | vertex (i : Nat)
+  | edge (i j : Nat)
+deriving DecidableEq, Repr
+
+section
+variable {α : Type} [Add α] [Sub α] [Mul α] [Div α] [Neg α] [LT α] [LE α]
+  [DecidableLT α] [DecidableLE α] [OfNat α 0] [OfNat α 1] [OfNat α 2]
+
+/-- `if d.abs() <= eps { 0.0 } else { d }` -/
+def snapDist (eps d : α) : α := if sabs d ≤ eps then 0 else d
+
+def isZero (d : α) : Bool := !(decide (d < 0)) && !(decide (0 < d))
+def isAbove (d : α) : Bool := decide (0 < d)
+def isBelow (d : α) : Bool := decide (d < 0)
+
+def count3 (p : α → Bool) (d0 d1 d2 : α) : Nat :=
+  (if p d0 then 1 else 0) + (if p d1 then 1 else 0) + (if p d2 then 1 else 0)
+
+def ekey (a b : Nat) : Nat × Nat := if a ≤ b then (a, b) else (b, a)
+
+/-- the two on-plane vertices of a face that has exactly two of them, as an edge key -/
+def onPlaneEdge (f : Nat × Nat × Nat) (d0 d1 d2 : α) : Nat × Nat :=
+  if isZero d0 then (if isZero d1 then ekey f.1 f.2.1 else ekey f.1 f.2.2) else ekey f.2.1 f.2.2
+
+/-- first pass: does the in-plane edge `e` have a face above / a face below? -/
+def inPlaneSides (dist : List α) (faces : List (Nat × Nat × Nat)) (e : Nat × Nat) : Bool × Bool :=
+  faces.foldl (fun (s : Bool × Bool) f =>
+    let d0 := dist.getD f.1 0
+    let d1 := dist.getD f.2.1 0
+    let d2 := dist.getD f.2.2 0
+    if count3 isZero d0 d1 d2 = 2 ∧ onPlaneEdge f d0 d1 d2 = e then
+      (s.1 || isAbove d0 || isAbove d1 || isAbove d2, s.2 || isBelow d0 || isBelow d1 || isBelow d2)
+    else s) (false, false)
+
+/-- the `ends` of one face: on-plane vertices and crossed edges, in edge order -/
+def faceEnds (f : Nat × Nat × Nat) (d0 d1 d2 : α) : List SecKey :=
+  let one (a b : Nat) (da db : α) : List SecKey :=
+    if isZero da then [.vertex a]
+    else if !(isZero db) && (isBelow da != isBelow db) then [.edge (ekey a b).1 (ekey a b).2]
+    else []
+  one f.1 f.2.1 d0 d1 ++ one f.2.1 f.2.2 d1 d2 ++ one f.2.2 f.1 d2 d0
+
+/-- the point of a section key -/
+def keyPoint (verts : List (V3 α)) (dist : List α) : SecKey → V3 α
+  | .vertex i => verts.getD i ⟨0, 0, 0⟩
+  | .edge i j =>
+    let pi := verts.getD i ⟨0, 0, 0⟩
+    let pj := verts.getD j ⟨0, 0, 0⟩
+    let di := dist.getD i 0
+    let dj := dist.getD j 0
+    V3.add pi (V3.smul (di / (di - dj)) (V3.sub pj pi))
+
+structure SecState (α : Type) where
+  keys : List SecKey
+  points : List (V3 α)
+  pairs : List (Nat × Nat)
+
+def findKey (k : SecKey) : List SecKey → Nat → Option Nat
+  | [], _ => none
+  | a :: r, i => if a = k then some i else findKey k r (i + 1)
+
+/-- `keys.entry(key).or_insert_with(..)` -/
+def SecState.intern (verts : List (V3 α)) (dist : List α) (s : SecState α) (k : SecKey) : SecState α × Nat :=
+  match findKey k s.keys 0 with
+  | some i => (s, i)
+  | none => ({ s with keys := s.keys ++ [k], points := s.points ++ [keyPoint verts dist k] }, s.keys.length)
+
+/-- one iteration of the main loop -/
+def sectionFace (P : Plane3 α) (verts : List (V3 α)) (dist : List α) (faces : List (Nat × Nat × Nat))
+    (s : SecState α) (f : Nat × Nat × Nat) : SecState α :=
+  let z : V3 α := ⟨0, 0, 0⟩
+  let d0 := dist.getD f.1 0
+  let d1 := dist.getD f.2.1 0
+  let d2 := dist.getD f.2.2 0
+  let zeros := count3 isZero d0 d1 d2
+  let above := count3 isAbove d0 d1 d2
+  let below := count3 isBelow d0 d1 d2
+  if zeros = 3 ∨ (zeros < 2 ∧ (above = 0 ∨ below = 0)) then s
+  else if zeros = 2 ∧ (above = 0 ∨ inPlaneSides dist faces (onPlaneEdge f d0 d1 d2) ≠ (true, true)) then s
+  else
+    match faceEnds f d0 d1 d2 with
+    | [k0, k1] =>
+      let r0 := s.intern verts dist k0
+      let r1 := r0.1.intern verts dist k1
+      let p0 := verts.getD f.1 z
+      let p1 := verts.getD f.2.1 z
+      let p2 := verts.getD f.2.2 z
+      let faceNormal := V3.cross (V3.sub p1 p0) (V3.sub p2 p0)
+      let along := V3.cross P.normal faceNormal
+      let seg := V3.sub (r1.1.points.getD r1.2 z) (r1.1.points.getD r0.2 z)
+      let pr := if V3.dot seg along < 0 then (r1.2, r0.2) else (r0.2, r1.2)
+      { r1.1 with pairs := r1.1.pairs ++ [pr] }
+    | _ => s
+
+/-- the table of snapped signed distances -/
+def distOf (P : Plane3 α) (eps : α) (verts : List (V3 α)) : List α :=
+  verts.map fun v => snapDist eps (P.signedDistance v)
+
+/-- `plane_crossing_segments` -/
+def planeCrossingSegments (P : Plane3 α) (eps : α) (verts : List (V3 α)) (faces : List (Nat × Nat × Nat)) :
+    List (V3 α) × List (Nat × Nat) :=
+  let dist := distOf P eps verts
+  let s := faces.foldl (sectionFace P verts dist faces) ⟨[], [], []⟩
+  (s.points, s.pairs)
+
+end
